@@ -1,5 +1,6 @@
 """C11 (partial) -- ground-program builder: returned keys, constant pairs, and when a node may be collapsed or shared."""
 import ast
+import re
 
 from ..index import AnalysisError, ClassInfo, norm, walk_no_nested
 from ..astutil import dotted, is_self_call
@@ -24,6 +25,7 @@ EXPLANATION = (
     " Added after seed round 7: G8 add_atom shares atoms by identifier for both values of keep_all and never folds the neutral weight to a constant."
     " Added after seed round 8: G9 paths of _add_compound for a modifiable node neither consult the sharing index nor return an indexed key."
     " Added after seed round 10: G3 the single-child shortcut returns X[0] only after the test len(X) == 1 on that same X (a test on set(X) collapses or(a, a) under keep_duplicates)."
+    " Added after seed round 11: G2 every return of add_and / add_or is the _add_compound call; G6 the complement test is exactly len(set(X)) > len(set(map(abs, X))) on one collection X."
 )
 TECHNIQUE = "static analysis: path-wise decision-table extraction, return-of-procedure rule over the class hierarchy"
 LEVEL_TEXT = EXPLANATION
@@ -75,6 +77,13 @@ def rule_g2(repo, col):
         calls = [n for n in walk_no_nested(f.node) if isinstance(n, ast.Call) and dotted(n.func) == "self._add_compound"]
         if len(calls) != 1 or len(calls[0].args) < 4:
             raise AnalysisError("%s: call of _add_compound not understood" % name)
+        # ... and nothing else answers: every return of add_and / add_or is that call (a short-cut in front of it skips the complement / absorbing / neutral tests)
+        inside = {id(x) for r in walk_no_nested(f.node) if isinstance(r, ast.Return) and r.value is not None for x in ast.walk(r.value) if x is calls[0]}
+        other = [r for r in walk_no_nested(f.node) if isinstance(r, ast.Return) and not (r.value is not None and any(x is calls[0] for x in ast.walk(r.value)))]
+        col.decide("G2", m, other[0] if other else f.node, not other, "%s answers only through _add_compound" % name,
+                   "%s has a return that does not go through _add_compound (%s): the constant-folding table (complement pair -> absorbing constant, neutral elements dropped, single child) "
+                   "is decided there and only there - and(x, -x) answered by a short-cut is no longer FALSE" % (name, norm(other[0])[:70] if other else ""),
+                   construct="%s: answer decided outside _add_compound" % name, function="LogicFormula.%s" % name)
         a = calls[0].args
         got = (a[0].value if isinstance(a[0], ast.Constant) else norm(a[0]), norm(a[2]), norm(a[3]))
         col.decide("G2", m, calls[0], got == (ntype, t, f_), "%s builds a %s with absorbing %s and neutral %s" % (name, ntype, t, f_),
@@ -85,6 +94,20 @@ def rule_g2(repo, col):
             okr = len(ro) == 1 and norm(ro[0].value) in ("readonly and (not placeholder)", "readonly and not placeholder", "readonly")
             col.decide("G2", m, calls[0], okr, "add_or forwards its readonly flag", "add_or must forward readonly (a mutable node requested by the caller would become collapsible)",
                        construct="add_or readonly forwarding", function="LogicFormula.add_or")
+
+
+def _is_complement_test(src):
+    """len(set(X)) > len(set(map(abs, X))) for one X"""
+    try:
+        e = ast.parse(src, mode="eval").body
+    except SyntaxError:
+        return False
+    if not (isinstance(e, ast.Compare) and len(e.ops) == 1 and isinstance(e.ops[0], ast.Gt)):
+        return False
+    l, r = norm(e.left).replace(" ", ""), norm(e.comparators[0]).replace(" ", "")
+    ml = re.match(r"^len\(set\((.*)\)\)$", l)
+    mr = re.match(r"^len\(set\(map\(abs,(.*)\)\)\)$", r)
+    return bool(ml and mr and ml.group(1) == mr.group(1))
 
 
 def rule_g3_g6(repo, col):
@@ -124,7 +147,12 @@ def rule_g3_g6(repo, col):
         last = p.stmts[-1]
         if v == "t":
             n_t += 1
-            ok = has_like(p, lambda s: s.startswith("t in "), True) or has_like(p, lambda s: "map(abs" in s and "len(set(" in s, True)
+            ok = has_like(p, lambda s: s.startswith("t in "), True) or has_like(p, _is_complement_test, True)
+            if not ok and has_like(p, lambda s: "map(abs" in s and "len(" in s, True):
+                fail_once("G6", last, "the absorbing constant is returned after a test that is not the complement test len(set(X)) > len(set(map(abs, X))) on one collection X (%s): "
+                          "counting X itself instead of set(X) takes a repeated child for a complementary pair - with keep_duplicates and(a, a) becomes FALSE"
+                          % [s for s, t, _ in p.conds if "map(abs" in s][0][:90], "return t after a complement test on the raw content")
+                continue
             if not ok:
                 fail_once("G6", last, "the absorbing constant is returned on a path that established neither `t in content` nor the complement test "
                           "(conditions on the path: %s)" % [(s, t) for s, t, _ in p.conds][-4:], "return t without absorbing/complement test")
